@@ -354,6 +354,17 @@ def generate_and_run(rng, profile, max_client_ops=None):
                 do(["geteot"])
                 do(["atf"])
                 settle()
+        if profile == "tracklist" and rng.random() < 0.25 and sim.n >= 2:
+            # positions asked, then edits that leave the length as it was (one out, one in; a move;
+            # a shuffle), then positions asked again: every answer is about the list as it is now
+            for _ in range(rng.randint(1, 2)):
+                do(["index", rng.choice(sim.tlids)])
+            for _ in range(rng.randint(1, 2)):
+                if sim.tlids:
+                    do(["remove", [rng.choice(sim.tlids)], None])
+                do(["add", [rng.randrange(NTRACKS)], rng.choice([None, 0, max(0, sim.n // 2)])])
+            for x in rng.sample(range(1, sim.next_tlid + 1), min(4, sim.next_tlid)):
+                do(["index", x])
         if profile == "settledf" and kinds.count("playable") <= 2 and rng.random() < 0.6:
             # a lonely playable entry among dead ones, random + repeat: every pass has to come back
             # to it, however the order falls (the retry budget must cover the rest of this pass and
